@@ -61,11 +61,12 @@ def stage_rows_check(run, tier):
     rng = random.Random(run.seed)
     x = [0.5 + 0.125 * i for i in range(20)]
     y = [2 * xi + 1.5 + 0.1 * rng.gauss(0, 1) for xi in x]
-    plist = [1, 3, 16] if tier == "quick" else [1, 2, 3, 5, 11, 16]
+    plist = [1, 3, 11, 16] if tier == "quick" else [1, 2, 3, 5, 11, 12, 16]
     comp = 3 if tier == "quick" else 4
     root = run.fresh_copy()
     payload = dict(runname="core_maths", comp=comp, gen_compl=[comp], P_list=plist,
-                   data=dict(x=x, y=y, yerr=[0.1] * 20), perturb=True, seed=run.seed)
+                   data=dict(x=x, y=y, yerr=[0.1] * 20), perturb=True, seed=run.seed,
+                   kwargs={"fit": {"tmax": 60}, "fisher": {"tmax": 60}, "match": {"tmax": 60}})
     r = run.harness("rt_stages.py", payload, root=root, timeout=3000)
     nu, na = r["n_unique"], r["n_all"]
     want = {"negloglike": nu, "codelen": nu, "derivs": nu, "matches": na, "combine": nu}
@@ -99,10 +100,16 @@ def stage_rows_check(run, tier):
                 if a in (float("inf"), float("-inf")) or b in (float("inf"), float("-inf")):
                     return a == b
                 return abs(a - b) <= 1e-3 * max(1.0, abs(a), abs(b))
-            t0, t1 = ref["tables"]["negloglike"], rec["tables"]["negloglike"]
-            mism = [i for i in range(nu) if not close(t0[i][0], t1[i][0])]
-            if len(mism) > max(1, nu // 10):
-                problems.append("negloglike rows do not refer to the same functions as with 1 rank: rows %s differ" % mism[:8])
+            for tab, col, n_ in (("negloglike", 0, nu), ("codelen", 1, nu), ("codelen", 0, nu), ("derivs", 0, nu), ("combine", 0, nu), ("matches", 0, na)):
+                t0, t1 = ref["tables"][tab], rec["tables"][tab]
+                mism = [i for i in range(n_) if not close(t0[i][col], t1[i][col])]
+                if len(mism) > max(2, n_ // 5):
+                    problems.append("%s rows (column %d) do not refer to the same functions as with 1 rank: rows %s differ" % (tab, col, mism[:8]))
+            # within one run: the likelihood column of the Fisher table repeats the fit table row by row (unless a parameter snapped)
+            tn, tc = rec["tables"]["negloglike"], rec["tables"]["codelen"]
+            off = [i for i in range(nu) if not close(tn[i][0], tc[i][1])]
+            if len(off) > max(2, nu // 3):
+                problems.append("codelen_comp rows are not aligned with negloglike_comp rows of the same run (rows %s)" % off[:8])
             m0, m1 = ref["tables"]["matches"], rec["tables"]["matches"]
             lib_matches = [int(float(v)) for v in r["matches"]]
             idx = [int(float(row[2])) for row in m1]
